@@ -5,6 +5,7 @@ package props
 import (
 	"fmt"
 	"strings"
+	"sync/atomic"
 
 	"verif/harness/core"
 )
@@ -78,6 +79,9 @@ func c26Alphabet() []c26Template {
 		t("paragraph-separator", "a = 3\u2029b = 4\n"),
 		t("comment-paragraph-separator", "// note\u2029a = 5 *\n"),
 		t("string-with-tab", "s = \"tab\there\"\n"),
+		// carriage return + newline line ends
+		t("crlf-statement", "a = 7\r\n"),
+		t("crlf-ends-plus", "a = b +\r\n"),
 	}
 }
 
@@ -152,11 +156,14 @@ func c26Sweep() (texts []string, names []string) {
 }
 
 func c26Run(c *core.Ctx) {
-	c.Rule("inputs: (1) all sequences of <= L templates from a 52-template alphabet of complete lines (complete statements; lines ending in operators, comma, opening brackets, keywords, label, dot; closers; raw strings and general comments opened/continued/closed on separate lines; comments; blank lines; general comments ending in runs of '*'; '#!' first line; U+2029; literal TAB in a string); " +
-		"(2) a sweep of every binary/assignment operator, comma, bracket and keyword at the line end x 5 prefixes x 5 trailers (comments, spaces) x 4 interposed lines x 2 followers; (3) every extension-free file of GOROOT/src and /repo (quick: every 4th). " +
-		"Each lexically valid input (go/scanner reports no error) is read with ReadMultiline through BufReadline (with and without final newline) and a line-by-line Readline, with and without ReadOptCollectAllComments. " +
+	c.Rule("inputs: (1) all sequences of <= L templates from a 54-template alphabet of complete lines (complete statements; lines ending in operators, comma, opening brackets, keywords, label, dot; closers; raw strings and general comments opened/continued/closed on separate lines; comments; blank lines; general comments ending in runs of '*'; '#!' first line; U+2029; literal TAB in a string; CR LF line ends); " +
+		"(2) a sweep of every binary/assignment operator, comma, bracket and keyword at the line end x 5 prefixes x 5 trailers (comments, spaces) x 4 interposed lines x 2 followers; (3) every extension-free file of GOROOT/src and /repo (quick: every 4th); " +
+		"(4) lines around the buffer sizes T of the readers (bufio's 4096 and its multiples, 65536; thorough up to 131072): 28 lexical contexts (identifier, number, string with escapes, rune, raw string, comments of each form, '#!', every operator class, inc/dec, keywords, selectors, brackets, multi-byte characters, U+2029, CR LF, continuation lines, lines of multi-line raw strings and comments) as a repeated unit shifted by every pad so that byte T of the line is each byte of the unit, " +
+		"and 30 line ends (identifier, number, ++, --, operators, comma, label, comments, string, escaped quote, rune, raw string, brackets, CR, keywords, U+2029) with the line length taking every value from T-2 until the whole tail lies behind T, each alone and after a statement, followed by a bracketed multi-line statement. " +
+		"Each lexically valid input (go/scanner reports no error) is read with ReadMultiline through a line-by-line Readline and through BufReadline over bufio.NewReader (with and without final newline), over a 16-byte bufio.Reader (every line exceeds the buffer) and over a source that delivers one byte per Read and the last one together with io.EOF (template sequences of length 4, thorough tier: the first three deliveries only), with and without ReadOptCollectAllComments. " +
 		"Oracle: concatenation of chunks == input ('#!' -> '//', U+2029 -> newline as done by the Readline); no chunk before the end of input ends inside a raw string/comment or with an open bracket (token extents from go/scanner); " +
-		"if go/parser accepts the input as a statement list (resp. file), every chunk end lies outside every top-level statement's extent (a chunk ending in '.' is exempt) and every non-comment chunk is accepted by go/parser on its own. " +
+		"if go/parser accepts the input as a statement list (resp. file), every chunk end lies outside every top-level statement's extent (a chunk ending in '.' is exempt) and every non-comment chunk is accepted by go/parser on its own; " +
+		"the chunks (text and first-token offset) of every bufio delivery of a newline-terminated text equal those of the line-by-line delivery. " +
 		"distinct_nontrivial = distinct complete inputs for which the reader returned a chunk of >= 2 lines or >= 2 chunks")
 	c.Assume("go/scanner and go/parser of Go 1.23 are the reference for token extents and statement extents",
 		"'Go source' means lexically valid text: inputs on which go/scanner reports an error are not judged",
@@ -207,7 +214,11 @@ func c26Run(c *core.Ctx) {
 		if l == 0 {
 			return
 		}
-		c26CheckN(c, vc, st, i, "templates "+strings.Join(nm, ","), sb.String(), true)
+		deliveries := c26AllDeliveries
+		if l >= 4 {
+			deliveries = c26BaseDeliveries // the longest sequences (thorough tier) are read through the three basic deliveries only
+		}
+		c26CheckND(c, vc, st, i, "templates "+strings.Join(nm, ","), sb.String(), true, deliveries)
 	})
 	c.Set("template_alphabet", len(alpha))
 	c.Set("template_max_sequence", L)
@@ -230,6 +241,24 @@ func c26Run(c *core.Ctx) {
 		}
 	})
 	c.Set("files_swept", len(files))
+	base += int64(len(files))
+
+	// (4) lines around the buffer sizes
+	longTs := []int{4096, 8192, 65536}
+	if c.Thorough() {
+		longTs = []int{4096, 8192, 12288, 16384, 32768, 65536, 131072}
+	}
+	long := c26LongLines(longTs, func(T int) bool { return c.Thorough() || T < 65536 })
+	var longComplete int64
+	parFor(c, int64(len(long)), 8, func(w int, i int64) {
+		st := get(w)
+		before := st.complete
+		c26CheckN(c, vc, st, base+i, long[i].name, long[i].text, true)
+		atomic.AddInt64(&longComplete, st.complete-before)
+	})
+	c.Set("long_line_inputs", len(long))
+	c.Set("long_line_inputs_complete_statement_lists", longComplete)
+	c.Set("long_line_buffer_sizes", longTs)
 
 	var tot c26Stats
 	for _, s := range stats {
@@ -241,6 +270,7 @@ func c26Run(c *core.Ctx) {
 			tot.exemptDot += s.exemptDot
 			tot.notLexical += s.notLexical
 			tot.firstTokenDiff += s.firstTokenDiff
+			tot.deliveryDiff += s.deliveryDiff
 		}
 	}
 	c.Eval(int(tot.evals))
@@ -250,6 +280,7 @@ func c26Run(c *core.Ctx) {
 	c.Count("exempt_chunk_ends_in_dot", int(tot.exemptDot))
 	c.Count("inputs_skipped_not_lexically_valid_or_extension", int(tot.notLexical))
 	c.Count("info_firstToken_differs_from_go_scanner", int(tot.firstTokenDiff))
+	c.Count("reads_differing_from_line_by_line_delivery", int(tot.deliveryDiff))
 	vc.flush(c)
 	c.Sample(map[string]string{"templates": "ends-plus,line-comment,operand", "text": "a = b +\n// comment { \" ' `\nc\n"})
 	c.Sample(map[string]string{"sweep": names[len(names)/2], "text": texts[len(texts)/2]})
@@ -257,8 +288,12 @@ func c26Run(c *core.Ctx) {
 
 // c26CheckN runs c26Check and records non-triviality.
 func c26CheckN(c *core.Ctx, vc *vcollector, st *c26Stats, idx int64, origin, text string, asStmts bool) {
+	c26CheckND(c, vc, st, idx, origin, text, asStmts, c26AllDeliveries)
+}
+
+func c26CheckND(c *core.Ctx, vc *vcollector, st *c26Stats, idx int64, origin, text string, asStmts bool, deliveries []int) {
 	before := st.complete
-	c26Check(vc, nil, st, idx, origin, text, asStmts)
+	c26CheckDeliveries(vc, st, idx, origin, text, asStmts, deliveries)
 	if st.complete > before && strings.Count(strings.TrimRight(text, "\n"), "\n") >= 1 {
 		c.Nontrivial(text)
 	}
